@@ -2,4 +2,4 @@ Require Extraction.
 Require Import ExtrOcamlBasic.
 From HV Require Import Http.Caps.
 Extraction Language OCaml.
-Extraction "c16_model.ml" run_trace init_manager step seed_request seed_response.
+Extraction "c16_model.ml" run_trace init_manager step seed_request seed_response cap_url md_getall get_region.
